@@ -335,7 +335,11 @@ func genInputs(r *vk.Rand, key, master string, n int, tkeys map[string]string) [
 			}
 		}
 	}
-	for _, sz := range []int{65000, 65400, 65500, 65520} {
+	lsz := []int{65000, 65400}
+	for sz := 65470; sz <= 65540; sz += 1 + sz%2 { // sizes around the limit, through every path that re-encodes the message
+		lsz = append(lsz, sz)
+	}
+	for _, sz := range lsz {
 		add("extreme/large-payload", session(key, mqttref.Subscribe(1, key+"/big/"), mqttref.Publish(2, key+"/big/", []byte(strings.Repeat("p", sz)), 1, false)))
 		add("extreme/large-payload-via-link", session(key, req(1, "link", map[string]interface{}{"name": "zz", "key": key, "channel": "big/", "subscribe": true}), mqttref.Publish(2, "zz", []byte(strings.Repeat("p", sz)), 1, false)))
 		add("extreme/large-payload-retained", session(key, mqttref.Publish(2, key+"/canary/", []byte(strings.Repeat("p", sz)), 1, true)))
@@ -514,7 +518,11 @@ func TestC09(t *testing.T) {
 			filled = append(filled, in)
 			continue
 		}
-		for _, sz := range []int{10, 65000, 65520, 65531, 65536, 70000, 200000} {
+		szs := []int{10, 65000, 70000, 200000}
+		for sz := 65490; sz <= 65545; sz++ { // every size around the encoder's limit (channel + payload + 2 crosses 65536 in here)
+			szs = append(szs, sz)
+		}
+		for _, sz := range szs {
 			m := message.New(message.NewSsid(contract, cq), []byte("canary/"), []byte(strings.Repeat("F", sz)))
 			f := message.Frame{*m}
 			filled = append(filled, hin{"cluster/frame-to-live-subscriber", append([]byte{'U'}, f.Encode()...)})
